@@ -21,6 +21,13 @@ func releaseAllocatedIPs(ippool *IPPool, session *PFCPSession) error {
 			return ippool.DeallocIP(session.localSEID)
 		}
 	}
+
+	// the rule that was given the address may have been removed by a modification meanwhile:
+	// the pool remembers what the session holds
+	if ippool != nil && ippool.holds(session.localSEID) {
+		return ippool.DeallocIP(session.localSEID)
+	}
+
 	return nil
 }
 
